@@ -57,7 +57,7 @@ LcIdle == [pc |-> "idle", m |-> NoClaim, lp |-> "-", res |-> "-", patched |-> FA
 NoObs == [pods |-> {}, vas |-> {}, elapsed |-> FALSE]
 NtIdle == [pc |-> "idle", n |-> NoNode, c0 |-> NoClaim, c |-> NoClaim, res |-> "-", patched |-> FALSE, obs |-> NoObs]
 
-Hist(e) == h' = Append(h, e)
+Hist(e) == Len(h) < MaxLen /\ h' = Append(h, e)
 Idle == lc.pc = "idle" /\ nt.pc = "idle"
 
 \* ---------------------------------------------------------------- abstraction into the logged record shapes
@@ -395,7 +395,7 @@ Controller ==
 Environment ==
     \/ \E p \in Pods : QRec(p) \/ PodGone(p) \/ PodBinds(p) \/ PodStuck(p)
     \/ UserDeleteClaim \/ UserDeleteNode \/ VolumeDetach \/ InstGone \/ InstVanish \/ NotReady \/ Ready \/ TgpElapses \/ DrainTimePasses \/ Restart
-Next == Len(h) < MaxLen /\ (Controller \/ Environment)
+Next == Controller \/ Environment
 Spec == Init /\ [][Next]_vars
 
 \* fairness for the liveness statement: controllers keep reconciling, calls eventually succeed, the kubelet
@@ -448,5 +448,5 @@ BoolBoth == {TRUE, FALSE}
 BoolF == {FALSE}
 BoolT == {TRUE}
 
-GenPrint == (Len(h) < MaxLen /\ ENABLED Next) \/ PrintT(<<"BEH", ToJson(h)>>)
+GenPrint == (Len(h) < MaxLen /\ ENABLED Next) \/ lc.pc # "idle" \/ nt.pc # "idle" \/ PrintT(<<"BEH", ToJson(h)>>)
 =============================================================================
